@@ -38,7 +38,8 @@ type c18CallCase struct {
 
 var c18CallMethods = []string{"SendJoin", "SendJoinPartialState", "SendLeave", "SendInviteV2", "SendInviteV3", "MakeJoin", "MakeLeave", "MakeKnock", "SendKnock",
 	"LookupState", "LookupStateIDs", "LookupMissingEvents", "GetEvent", "GetEventAuth", "Backfill", "SendTransaction", "Peek", "GetServerKeys", "LookupServerKeys",
-	"LookupRoomAlias", "GetPublicRooms", "LookupProfile", "ClaimKeys", "QueryKeys", "GetUserDevices", "ExchangeThirdPartyInvite", "RoomHierarchy", "MSC2836EventRelationships"}
+	"LookupRoomAlias", "GetPublicRooms", "LookupProfile", "ClaimKeys", "QueryKeys", "GetUserDevices", "ExchangeThirdPartyInvite", "RoomHierarchy", "MSC2836EventRelationships",
+	"GetPublicRoomsFiltered", "DownloadMedia", "P2PSendTransactionToRelay", "P2PGetTransactionFromRelay", "GetVersion", "LookupUserInfo", "CreateMediaDownloadRequest"}
 
 var c18CallBodies = []string{
 	`[200]`, `[]`, `[200,{}]`, `[{}]`, `[200,null]`, `[null,null]`, `[null]`, `[200,{"state":null,"auth_chain":null}]`, `[200,[]]`, `[1,2,3]`, `[[200,{}]]`,
@@ -48,6 +49,7 @@ var c18CallBodies = []string{
 	`{"events":[null]}`, `{"room_id":7,"servers":null}`, `{"chunk":[null]}`, `{"one_time_keys":null}`, `{"device_keys":{"@a:b":null}}`, `{"devices":[null],"user_id":7}`,
 	`{"errcode":"M_NOT_FOUND","error":"x"}`, `{"errcode":7}`, `{"room":null,"children":[null]}`, `{"state":[{"type":"m.room.member"}],"auth_chain":[],"event":{"type":"x"}}`,
 	`{"members_omitted":"yes","servers_in_room":7}`, `{"origin":7,"origin_server_ts":"x","pdus":[]}`,
+	`{"sub":7}`, `{"sub":"@u"}`, `{"sub":":"}`, `{"sub":"@u:local.example:x"}`, `{"server":null}`, `{"server":{"name":7}}`, `{"pdus":[null],"edus":[null],"entry_id":"x","entries_queued":7}`, `{"transaction":null}`,
 }
 
 func c18GenCall(t *rapid.T) c18CallCase {
@@ -154,6 +156,8 @@ func c18CallCheck(ctx *vfCtx, c c18CallCase) {
 	bg, cancel := context.WithTimeout(context.Background(), 10*time.Second)
 	defer cancel()
 	room, user, eid := ev.RoomID().String(), "@u:local.example", ev.EventID()
+	// the methods of the plain (unsigned-request) client underneath
+	plain := &fc.(*federationClient).Client
 	calls := map[string]func(){
 		"SendJoin":             func() { _, _ = fc.SendJoin(bg, origin, dest, ev) },
 		"SendJoinPartialState": func() { _, _ = fc.SendJoinPartialState(bg, origin, dest, ev) },
@@ -207,6 +211,29 @@ func c18CallCheck(ctx *vfCtx, c c18CallCase) {
 		"RoomHierarchy": func() { _, _ = fc.RoomHierarchy(bg, origin, dest, room, false) },
 		"MSC2836EventRelationships": func() {
 			_, _ = fc.MSC2836EventRelationships(bg, origin, dest, MSC2836EventRelationshipsRequest{EventID: eid}, rv)
+		},
+		"GetPublicRoomsFiltered": func() { _, _ = fc.GetPublicRoomsFiltered(bg, origin, dest, 5, "", "x", false, "") },
+		"DownloadMedia": func() {
+			if r, err := fc.DownloadMedia(bg, origin, dest, "media1"); err == nil && r != nil && r.Body != nil {
+				_ = r.Body.Close()
+			}
+		},
+		"P2PSendTransactionToRelay": func() {
+			if u, err := spec.NewUserID(user, true); err == nil {
+				_, _ = fc.P2PSendTransactionToRelay(bg, *u, gomatrixserverlib.Transaction{TransactionID: "t1", Origin: origin, Destination: dest}, dest)
+			}
+		},
+		"P2PGetTransactionFromRelay": func() {
+			if u, err := spec.NewUserID(user, true); err == nil {
+				_, _ = fc.P2PGetTransactionFromRelay(bg, *u, RelayEntry{EntryID: 1}, dest)
+			}
+		},
+		"GetVersion":     func() { _, _ = plain.GetVersion(bg, dest) },
+		"LookupUserInfo": func() { _, _ = plain.LookupUserInfo(bg, dest, "token") },
+		"CreateMediaDownloadRequest": func() {
+			if r, err := plain.CreateMediaDownloadRequest(bg, dest, "media1"); err == nil && r != nil && r.Body != nil {
+				_ = r.Body.Close()
+			}
 		},
 	}
 	f, ok := calls[c.Method]
